@@ -337,7 +337,8 @@ func (k Keeper) MoveTokensFromValidator(ctx context.Context, validator stakingty
 	switch {
 	case validator.IsBonded():
 		fromPool = stakingtypes.BondedPoolName
-	case validator.IsUnbonding():
+	case validator.IsUnbonding(), validator.IsUnbonded():
+		// the tokens of every validator that is not bonded are held by the not bonded pool
 		fromPool = stakingtypes.NotBondedPoolName
 	default:
 		return fmt.Errorf("unknown validator status: %s", validator.GetStatus())
